@@ -517,6 +517,9 @@ func (p *parser) primary() Expr {
 
 type LoopSpec struct {
 	Invariants []Clause
+	// EndAsserts: 'loop N end assert [l] e' - checked at the end of every iteration (at the back edge), where the
+	// variables declared in the body are in scope and head(x) is x's value at the start of the iteration
+	EndAsserts []Clause
 }
 
 type Clause struct {
@@ -539,6 +542,9 @@ type Contract struct {
 	Abstract bool // unmodelled instructions / callees are abstracted by havoc
 	Binds    []BindDecl
 	ReadonlyWhen []Clause
+	// Exits: 'exit assert [l] e' - checked at every return like an ensures clause, but not part of the interface: it may
+	// name the function's local variables (in scope at that return); callers do not see it
+	Exits []Clause
 	FuncName  string // as written: e.g. poolFor, (*Allocator).Assign, or fully qualified for stubs
 	Pkg       string // package path
 	Requires  []Clause
@@ -644,7 +650,7 @@ type SpecFile struct {
 var directiveWords = map[string]bool{
 	"func": true, "requires": true, "ensures": true, "modifies": true, "loop": true, "pred": true, "fun": true,
 	"ufun": true, "axiom": true, "lemma": true, "pure": true, "check": true, "immutable": true, "trusted": true,
-	"inline": true, "package": true, "allocates": true, "pureparam": true, "denotes": true, "assert": true, "guarded_by": true, "havocs": true, "opaque": true, "reads": true, "call": true, "readonly": true, "lockonly": true, "abstract": true, "binds": true, "apply": true,
+	"inline": true, "package": true, "allocates": true, "pureparam": true, "denotes": true, "assert": true, "guarded_by": true, "havocs": true, "opaque": true, "reads": true, "call": true, "readonly": true, "lockonly": true, "abstract": true, "binds": true, "apply": true, "exit": true,
 }
 
 // parseSpecText parses the joined text of //@ lines. lines carries (text,lineNo).
@@ -740,6 +746,20 @@ func parseSpecLines(file string, pkg string, lines []specLine) (*SpecFile, error
 			rest = strings.TrimSpace(strings.TrimLeft(rest, "0123456789"))
 			if strings.HasPrefix(rest, "binds ") {
 				cur.LoopBinds[n] = strings.TrimSpace(rest[len("binds "):])
+				continue
+			}
+			if strings.HasPrefix(rest, "end assert") {
+				name, text := splitLabel(strings.TrimSpace(rest[len("end assert"):]))
+				e, err := ParseExpr(text)
+				if err != nil {
+					return nil, errf("%v", err)
+				}
+				ls := cur.Loops[n]
+				if ls == nil {
+					ls = &LoopSpec{}
+					cur.Loops[n] = ls
+				}
+				ls.EndAsserts = append(ls.EndAsserts, Clause{Text: text, E: e, Name: name, File: file, Line: d.line})
 				continue
 			}
 			if !strings.HasPrefix(rest, "invariant") {
@@ -881,6 +901,20 @@ func parseSpecLines(file string, pkg string, lines []specLine) (*SpecFile, error
 				return nil, errf("abstract outside func")
 			}
 			cur.Abstract = true
+		case "exit":
+			if cur == nil {
+				return nil, errf("exit outside func")
+			}
+			tx := strings.TrimSpace(d.text)
+			if !strings.HasPrefix(tx, "assert ") {
+				return nil, errf("exit: expected 'exit assert [label] <expr>'")
+			}
+			name, text := splitLabel(strings.TrimSpace(tx[len("assert "):]))
+			e, err := ParseExpr(text)
+			if err != nil {
+				return nil, errf("%v", err)
+			}
+			cur.Exits = append(cur.Exits, Clause{Text: text, E: e, Name: name, File: file, Line: d.line})
 		case "readonly":
 			// readonly when <expr>: when expr holds on return, no cell of an object allocated before the call was written
 			if cur == nil {
